@@ -20,6 +20,7 @@ mod c11;
 mod c12;
 mod c13;
 mod c14;
+mod c17;
 mod c18;
 mod c19;
 
@@ -86,6 +87,7 @@ fn main() {
         "c02_layers" => c02::layers(thorough),
         "c13_order" => c13::order(thorough),
         "c14_normalize" => c14::normalize(thorough),
+        "c17_argv" => c17::argv_roundtrip(thorough),
         "c18_inventory" => c18::inventory(thorough),
         other => {
             eprintln!("unknown check {other}");
